@@ -82,7 +82,7 @@ def rand_callback(rng):
     rules = {}
     for cls, ar in rng.sample(CLASSES, rng.randint(1, 3)):
         same_arity = [c for c, a in CLASSES if a == ar and c != cls]
-        kind = rng.choice(['same', 'new', 'newmeta', 'leaf', 'wrap', 'set', 'equalcopy'] if same_arity else ['same', 'leaf', 'wrap', 'set', 'equalcopy'])
+        kind = rng.choice(['same', 'new', 'newmeta', 'leaf', 'wrap', 'set', 'equalcopy', 'child'] if same_arity else ['same', 'leaf', 'wrap', 'set', 'equalcopy', 'child'])
         if kind == 'new':
             rules[cls] = ('new', rng.choice(same_arity), None)
         elif kind == 'newmeta':
@@ -91,6 +91,8 @@ def rand_callback(rng):
             rules[cls] = ('leaf', rng.choice([0, 1, 2, 3]))
         elif kind == 'set':
             rules[cls] = ('set', rng.randrange(ar), rng.choice([0, 1, 2, 3, 9]))
+        elif kind == 'child':
+            rules[cls] = ('child', rng.randrange(ar))          # hoists one of the node's own children (an object of the input tree)
         else:
             rules[cls] = (kind,)
     return rules
@@ -105,6 +107,8 @@ def cb_wire(rules):
             act = f'(leaf {a[1]})'
         elif a[0] == 'set':
             act = f'(set {a[1]} {a[2]})'
+        elif a[0] == 'child':
+            act = f'(child {a[1]})'
         else:
             act = a[0]
         out.append(f'({CID[cls]} {act})')
@@ -131,6 +135,8 @@ def make_py_callback(mod, rules, index, log):
             return [node]
         if a[0] == 'set':
             return node._replace(**{node._fields[a[1]]: (None if a[2] == 9 else a[2])})
+        if a[0] == 'child':
+            return fields[a[1]]
         if a[0] == 'equalcopy':
             return type(node)(*fields)
         raise AssertionError(a)
@@ -180,6 +186,21 @@ def run(tier, seed, lean):
         if len(samples) < 3 and i % 301 == 0:
             samples.append({'tree': wire(t)[:200], 'callbacks': [cb_wire(r) for r in cbs], 'result_and_log': real[:300]})
     drv.close()
+    # a tree deeper than Python's recursion limit
+    deep = 1
+    for _ in range(3000):
+        deep = getattr(mod, CLASSES[0][0])(*([deep] + [0] * (CLASSES[0][1] - 1)))
+    evals += 1
+    try:
+        seen = []
+        out = mod.transform(deep, lambda x: (seen.append(1), x)[1])
+        if out is not deep and not (out == deep) or len(seen) != 3000:
+            violations.append({'key': 'deep|wrong', 'sig': 'deep-tree', 'kind': 'spec', 'seed': seed, 'tier': tier,
+                               'what': f'transform with an identity callback on a chain of 3000 nested objects: {len(seen)} callback applications'})
+    except RecursionError:
+        violations.append({'key': 'deep|recursion', 'sig': 'deep-tree', 'kind': 'spec', 'seed': seed, 'tier': tier, 'finding_class': 'deep-tree-recursion',
+                           'what': 'transform on a chain of 3000 nested objects raises RecursionError'})
+    del deep
     cov = {
         'evaluations': evals,
         'distinct_nontrivial': nontrivial,
